@@ -374,17 +374,30 @@ float32_t igris_atof32(const char *str, char **pend)
         str++;
     }
 
+    // The digits of the integer part and of the fraction are accumulated
+    // in double (no wrap-around, whatever their number); the fraction
+    // digits are counted and scaled away at the end.
     char *end;
-    unsigned int u = igris_atou32(str, 10, &end);
-    double ret = (double)u;
+    double ret = 0.0;
+    int frac_digits = 0;
 
-    str = end;
+    while (igris_isdigit(*str))
+    {
+        ret = ret * 10.0 + (*str - '0');
+        str++;
+    }
+
     if (*str == '.')
     {
-        uint64_t d = igris_atou64(++str, 10, &end);
-        ret += (double)d / (double)local_pow(10, (int)(end - str));
-        str = end;
+        str++;
+        while (igris_isdigit(*str))
+        {
+            ret = ret * 10.0 + (*str - '0');
+            str++;
+            frac_digits++;
+        }
     }
+    end = (char *)str;
 
     if (*str == 'e' || *str == 'E')
     {
@@ -412,6 +425,9 @@ float32_t igris_atof32(const char *str, char **pend)
                 ret = eminus ? ret / 10.0 : ret * 10.0;
         }
     }
+
+    while (frac_digits--)
+        ret /= 10.0;
 
     if (pend)
         *pend = end;
